@@ -249,19 +249,28 @@ pub enum Log {
 }
 
 fn log_eq(a: &[Log], b: &[Log]) -> bool {
+    // a callback asked again with the very same arguments decides the same: consecutive repeats are collapsed
+    let same = |x: &Log, y: &Log| match (x, y) {
+        (Log::Restored { seen: s1, path: p1 }, Log::Restored { seen: s2, path: p2 }) => p1 == p2 && opt_tv_eq(s1, s2),
+        (Log::Invalid { generic: g1 }, Log::Invalid { generic: g2 }) => opt_tv_eq(g1, g2),
+        _ => false,
+    };
+    let mut a2: Vec<&Log> = vec![];
+    for x in a {
+        if a2.last().map(|l| same(l, x)) != Some(true) {
+            a2.push(x);
+        }
+    }
+    let a = a2;
     a.len() == b.len()
-        && a.iter().zip(b).all(|(x, y)| match (x, y) {
+        && a.iter().zip(b).all(|(x, y)| match (*x, y) {
             (Log::Restored { seen: s1, path: p1 }, Log::Restored { seen: s2, path: p2 }) => p1 == p2 && opt_tv_eq(s1, s2),
             (Log::Invalid { generic: g1 }, Log::Invalid { generic: g2 }) => opt_tv_eq(g1, g2),
             _ => false,
         })
 }
 fn opt_tv_eq(a: &Option<TV>, b: &Option<TV>) -> bool {
-    match (a, b) {
-        (None, None) => true,
-        (Some(x), Some(y)) => x.sem_eq(y),
-        _ => false,
-    }
+    meta_eq(a, b)
 }
 
 trait CauseLike: Copy + 'static {
@@ -542,7 +551,9 @@ pub fn run_history_in(root: &Path, h: &[Op], names: &[&str], cleanup: bool) -> H
                     match (&got, &want) {
                         (Ok(lr), Ok(ws)) => {
                             let gs = lr.nstate();
-                            if gs != *ws {
+                            // an uncached request has no callbacks: which Empty cause it reports is not decided
+                            let undecided_cause = matches!(op, Op::Uncached { .. }) && !matches!(gs, NState::Restored(_)) && !matches!(ws, NState::Restored(_));
+                            if gs != *ws && !undecided_cause {
                                 return Err(ctxmsg(Fail::new("C01:reported-state-differs", format!("layer {lname:?}: reported {gs:?}, callbacks decided {ws:?}"))));
                             }
                             match ws {
@@ -567,13 +578,17 @@ pub fn run_history_in(root: &Path, h: &[Op], names: &[&str], cleanup: bool) -> H
                     if !log_eq(&got_log, &want_log) {
                         return Err(ctxmsg(Fail::new("C01:callback-invocations-differ", format!("layer {lname:?}: callbacks invoked {got_log:?}, expected {want_log:?}"))));
                     }
-                    // 3./5. disk == model for this layer (after Ok: new state; after Err: unchanged or metadata replaced before the error)
+                    // 3./5. disk == model for this layer (after Ok: new state; after a callback Err: unchanged, or metadata
+                    //       replaced before the error — whichever of the two the implementation chose)
+                    if matches!((&got, &want), (Err(_), Err(()))) {
+                        settle_after_error(&bc.layers_dir, &mut model, names, lname, vec![own_before.clone()]);
+                    }
                     compare_disk("C01", &bc.layers_dir, &model, names).map_err(&ctxmsg)?;
                     if let (Ok(_), Ok(ws)) = (&got, &want) {
                         if !matches!(ws, NState::Restored(_)) {
                             // an empty layer has no entries at all
-                            let n = std::fs::read_dir(&lpath).map(|d| d.count()).unwrap_or(99);
-                            ensure!(n == 0, "C01:empty-layer-keeps-files", "step {step}: layer {lname:?} reported empty but its directory has {n} entries");
+                            let left: Vec<String> = fsutil::snapshot(&lpath).iter().filter(|(p, e)| !p.is_empty() && !matches!(e.kind, fsutil::Kind::Dir)).map(|(p, _)| fsutil::show_path(p)).collect();
+                            ensure!(left.is_empty(), "C01:empty-layer-keeps-files", "step {step}: layer {lname:?} reported empty but its directory still holds {left:?}");
                         }
                     }
                     // 4. other layers byte-identical
@@ -642,9 +657,10 @@ pub fn run_history_in(root: &Path, h: &[Op], names: &[&str], cleanup: bool) -> H
                         }
                         Op::WriteSboms { sboms, .. } => {
                             out.classes.push("write:sboms");
-                            // later entries of the same format overwrite earlier ones
-                            model.layer(lname).sboms = sboms.iter().cloned().collect();
-                            lr.w_sboms(sboms)
+                            // one SBOM per format per call (what several SBOMs of one format mean is not documented)
+                            let uniq: BTreeMap<u8, Vec<u8>> = sboms.iter().cloned().collect();
+                            model.layer(lname).sboms = uniq.clone();
+                            lr.w_sboms(&uniq.into_iter().collect::<Vec<_>>())
                         }
                         Op::WriteExecD { progs, .. } => {
                             out.classes.push("write:exec.d");
@@ -873,7 +889,7 @@ fn absorb(ctx: &Ctx, h: &[Op], o: crate::histworker::Outcome, sub: &str, nnames:
 }
 
 pub fn run(ctx: &Ctx) {
-    ctx.set_rule("histories of layer requests (cached x build/launch x metadata type {generic, V1, V2} x restored-callback decisions {keep, delete, with/without cause, plain/Result shape, error} x invalid-metadata decisions {delete, replace with a valid value, causes, shapes, error}; uncached x flags), layer writes through the returned LayerRef (metadata of the three types, env over all four scopes with byte-string names, SBOM sets, exec.d sets, plain files incl. bin/ lib/, symbolic links incl. dangling ones) and simulated lifecycle restores (cache=true keeps dir+metadata+SBOMs without types; launch-only keeps the metadata file only; others vanish) over 3 (quick) / 5 (thorough) layer names (prefix-related: 'alpha', 'alpha2', 'alpha.v2 layer' with a dot and a space; thorough adds a non-ASCII one), executed against a real BuildContext on a temp layers directory and against a reference model, compared after EVERY step. bounded-exhaustive: all histories of length <= 3 over a reduced alphabet of 33 operations on one layer (37 060 histories) plus all histories of the shape request, write(s), restore, request over the same alphabet; sampled: histories of length <= 24 (quick) / <= 60 (thorough). Oracle: reported state == callback decisions; callback invocation log (which callback, with which metadata and path) == model; disk == model (files bytewise, content metadata via Python tomllib, SBOM files), empty layer has no entries, other layers byte-identical. Non-trivial: history contains a restore followed by a request on a layer that at that moment has a directory and at least one of {SBOM, env entry, exec.d program, metadata}; distinct = hash of the operation list.");
+    ctx.set_rule("histories of layer requests (cached x build/launch x metadata type {generic, V1, V2} x restored-callback decisions {keep, delete, with/without cause, plain/Result shape, error} x invalid-metadata decisions {delete, replace with a valid value, causes, shapes, error}; uncached x flags), layer writes through the returned LayerRef (metadata of the three types, env over all four scopes with byte-string names, SBOM sets, exec.d sets, plain files incl. bin/ lib/, symbolic links incl. dangling ones) and simulated lifecycle restores (cache=true keeps dir+metadata+SBOMs without types; launch-only keeps the metadata file only; others vanish) over 3 (quick) / 5 (thorough) layer names (prefix-related: 'alpha', 'alpha2', 'alpha.v2 layer' with a dot and a space; thorough adds a non-ASCII one), executed against a real BuildContext on a temp layers directory and against a reference model, compared after EVERY step. bounded-exhaustive: all histories of length <= 3 over a reduced alphabet of 33 operations on one layer (37 060 histories) plus all histories of the shape request, write(s), restore, request over the same alphabet; sampled: histories of length <= 24 (quick) / <= 60 (thorough). Oracle: reported state == callback decisions (an uncached request may report any Empty cause); callback invocation log (which callback, with which metadata and path) == model; disk == model (files bytewise, content metadata via Python tomllib, SBOM files), an empty layer holds no file or link (empty directories do not count), LayerRef::read_env == explicit entries + implicit layer paths of the model after every request and write, other layers byte-identical; absent and empty metadata / absent and all-false types are equal; after a callback Err the layer may be as before or as far as the model got. Non-trivial: history contains a restore followed by a request on a layer that at that moment has a directory and at least one of {SBOM, env entry, exec.d program, metadata}; distinct = hash of the operation list.");
     ctx.assume("the lifecycle is the abstraction stated in the property's quantifier, applied to the real directory by the harness");
     ctx.assume("malformed TOML and hand-edited env directories are not generated");
     ctx.set_exhaustive(true);
@@ -1023,7 +1039,8 @@ pub fn apply_ops(bc: &BuildContext<HB>, ops: &[Op], names: &[&str], side: &Path)
             }
             Op::WriteSboms { name, sboms } => {
                 if let Some(lr) = refs.get(&(*name % names.len() as u8)) {
-                    lr.w_sboms(sboms)?;
+                    let uniq: BTreeMap<u8, Vec<u8>> = sboms.iter().cloned().collect();
+                    lr.w_sboms(&uniq.into_iter().collect::<Vec<_>>())?;
                 }
             }
             Op::WriteExecD { name, progs } => {
